@@ -407,3 +407,41 @@ def no_multi_octet_match_on_transient_slice(ctx, P):
         ctx.check('%s:transient-slice:%s' % (P, p), 'R-who', '%s takes per-octet decisions on the slice handed out by fill_buf (no multi-octet pattern match that a fragment boundary can split)' % p.split(' as ')[0].lstrip('<'),
                   not bad, function=p, missing=bad or None)
     ctx.floor(P + ':transient-slice:floor', 'functions working on a fill_buf slice', n, 3)
+
+
+EOF_MAKERS = {
+    # io::ErrorKind::UnexpectedEof is read by PacketParser::next / next_ref as "the packet stream ended here" (a clean end when it
+    # happens on a header boundary).  Every function that CONSTRUCTS that kind is listed with the reason it cannot be mistaken.
+    "composed::message::reader::signed_many::SignatureManyReader::<'a>::fill_inner": 'raised after the trailing packet parser has already ended: no packet parser reads from this reader',
+    'crypto::aead::decryptor::StreamDecryptor::<R>::fill_inner': 'fewer than 16 octets in total: raised on the first fill, before any packet was parsed from the plaintext; latched since F48',
+    'crypto::sym::decryptor::StreamDecryptorInner::<M, R>::advance_prefix': 'prefix shorter than block size + 2: raised before any plaintext exists; the state is Error afterwards',
+    'parsing_reader::BufReadParsing::read_arr': 'the parsing helper: a short read of a fixed-size field IS the end of the stream',
+    'parsing_reader::BufReadParsing::take_bytes': 'the parsing helper: a short read of a counted field IS the end of the stream',
+    'parsing_reader::BufReadParsing::read_arr_boxed': 'the parsing helper (boxed variant)',
+}
+
+
+def eof_kind_protocol(ctx, P):
+    """Cross-module protocol: `PacketParser::next` turns an `UnexpectedEof` met while reading a packet header into `None`.  A reader
+    below a packet parser that raises that kind for a *malformed* end (instead of InvalidData / Other) makes the parser end cleanly
+    and the caller continue as if the stream were complete.  Who-may-construct rule over the whole crate."""
+    makers = {}
+    for p, r in sorted(ctx.f.bodies.items()):
+        if r.get('derived') or '::tests::' in p:
+            continue
+        b = ctx.wrap(r)
+        cs = b.constructs(r'std::io::ErrorKind$', 'UnexpectedEof')
+        if cs:
+            makers[p.split('::{closure')[0]] = site(b, cs[0][0])
+        else:
+            ctx.functions.discard(p)
+    consumers = []
+    for p, r in sorted(ctx.f.bodies.items()):
+        if p.startswith('packet::many::PacketParser') and not r.get('derived'):
+            b = ctx.wrap(r)
+            if any(has_origin(b.switch_origins(i), r'call:std::io::Error::kind$') for i, t in b.switches()):
+                consumers.append(p)
+    extra = sorted(set(makers) - set(EOF_MAKERS))
+    ctx.check(P + ':eof-kind:makers-reviewed', 'R-who', 'io::ErrorKind::UnexpectedEof (read by the packet parser as a clean end of the stream) is constructed only by the %d reviewed functions' % len(EOF_MAKERS),
+              not extra and len(makers) >= 4 and bool(consumers), makers=makers, consumers=consumers,
+              missing=['%s (%s) constructs UnexpectedEof: a packet parser above it would end cleanly' % (p, makers[p]) for p in extra] or None)
